@@ -86,6 +86,27 @@ func (t *VTok) M__or__(o py.Object) (py.Object, error)       { return vOut("or",
 func (t *VTok) M__xor__(o py.Object) (py.Object, error)      { return vOut("xor", t, o) }
 func (t *VTok) M__pow__(o, m py.Object) (py.Object, error)   { return vOut("pow", t, o) }
 
+func (t *VTok) M__iadd__(o py.Object) (py.Object, error) { return vOut("iadd", t, o) }
+func (t *VTok) M__isub__(o py.Object) (py.Object, error) { return vOut("isub", t, o) }
+func (t *VTok) M__imul__(o py.Object) (py.Object, error) { return vOut("imul", t, o) }
+func (t *VTok) M__itruediv__(o py.Object) (py.Object, error) { return vOut("itruediv", t, o) }
+func (t *VTok) M__ifloordiv__(o py.Object) (py.Object, error) { return vOut("ifloordiv", t, o) }
+func (t *VTok) M__imod__(o py.Object) (py.Object, error) { return vOut("imod", t, o) }
+func (t *VTok) M__ilshift__(o py.Object) (py.Object, error) { return vOut("ilshift", t, o) }
+func (t *VTok) M__irshift__(o py.Object) (py.Object, error) { return vOut("irshift", t, o) }
+func (t *VTok) M__iand__(o py.Object) (py.Object, error) { return vOut("iand", t, o) }
+func (t *VTok) M__ior__(o py.Object) (py.Object, error) { return vOut("ior", t, o) }
+func (t *VTok) M__ixor__(o py.Object) (py.Object, error) { return vOut("ixor", t, o) }
+func (t *VTok) M__ipow__(o, m py.Object) (py.Object, error) { return vOut("ipow", t, o) }
+func (t *VTok) M__contains__(o py.Object) (py.Object, error) {
+	vLog = append(vLog, "contains("+vName(t)+","+vName(o)+")")
+	n := strconv.Itoa(len(vLog))
+	if vOutcomes > 1 && verifChoice("out"+n, vOutcomes) == 1 {
+		return nil, vErr
+	}
+	return py.NewBool(verifBool("truth" + n)), nil
+}
+
 func (t *VTok) M__lt__(o py.Object) (py.Object, error) { return vOut("lt", t, o) }
 func (t *VTok) M__le__(o py.Object) (py.Object, error) { return vOut("le", t, o) }
 func (t *VTok) M__eq__(o py.Object) (py.Object, error) { return vOut("eq", t, o) }
